@@ -214,7 +214,10 @@ def check_lists_edited_in_place(ctx, model):
                         continue
                     n += 1
                     cv = model.view(o.a)
-                    old = lambda os_: bool(os_) and all(x.kind == "param" and x.a == 2 and not [e for e in x.proj if e != "0"] for x in os_)
+                    # the stored list, or (first position of a user) an explicitly empty one
+                    empty = lambda x: (x.kind in ("fnitem", "call") and re.search(r"(Vec::new|Default>::default|unwrap_or_default)$", re.sub(r"::<[^>]*>", "", str(x.a))))
+                    old = lambda os_: any(x.kind == "param" and x.a == 2 for x in os_) and all(
+                        (x.kind == "param" and x.a == 2 and not [e for e in x.proj if e != "0"]) or empty(x) for x in os_)
                     edits = cv.calls_to(r"^std::vec::Vec::(push|remove|insert|swap_remove|retain|clear|truncate|pop)$")
                     recv = [sorted(map(repr, cv.origins_of_operand(et["args"][0], at=cv.at_term(eb)))) for eb, et in edits]
                     recv_ok = all(old(cv.origins_of_operand(et["args"][0], at=cv.at_term(eb))) for eb, et in edits)
